@@ -276,6 +276,9 @@ func apply(m mapper, cur crdt.ReplicatedData, node string, o op) crdt.Replicated
 		}
 		return v.Decrement(node, uint64(o.N))
 	case *crdt.Flag:
+		if o.K == "nop" {
+			return v // a modify function that returns its argument
+		}
 		return v.Enable()
 	case *crdt.LWWRegister:
 		return v.Set(m.toGo(o.X), time.Unix(0, o.N), node)
@@ -501,6 +504,10 @@ func fail(a ...any) {
 }
 
 func main() {
+	if len(os.Args) > 1 && os.Args[1] == "replicator" {
+		runReplicator(os.Args[2:])
+		return
+	}
 	if len(os.Args) != 6 || os.Args[1] != "replay" {
 		fail("usage: crdt replay <behaviours.ndjson> <outdir> <nflavours> <laws|codec|steps>")
 	}
@@ -557,15 +564,15 @@ func main() {
 					ids = append(ids, s.ID)
 				}
 			case "Deliver":
-				d, ok := net[s.ID]
-				if !ok {
-					fail("behaviour delivers an unknown delta", s.ID)
-				}
-				data := mustWire(d) // encodeDelta / decodeDelta
-				if cur := st[s.R]; cur == nil {
-					st[s.R] = data // handleDelta: r.store[keyID] = msg.Delta
-				} else {
-					st[s.R] = cur.Merge(data)
+				// The model published a delta for update s.ID. If the real Delta() returned nil there is
+				// nothing to deliver: the receiver stays as it is and the monitor sees what is missing.
+				if d, ok := net[s.ID]; ok {
+					data := mustWire(d) // encodeDelta / decodeDelta
+					if cur := st[s.R]; cur == nil {
+						st[s.R] = data // handleDelta: r.store[keyID] = msg.Delta
+					} else {
+						st[s.R] = cur.Merge(data)
+					}
 				}
 			case "Merge":
 				src := st[s.Q]
